@@ -1,8 +1,9 @@
 #!/bin/sh
 # usage: try_seed.sh <patch.diff> [property ids...]
 # Applies a seeded breaking change to /repo, runs the quick checks of the named (default: all claimed)
-# properties, prints their VIOLATION lines, and restores /repo.
+# properties (6 at a time), prints their VIOLATION lines, and restores /repo.
 . /verif/scripts/env.sh
+GCV=${GCV:-/verif/bin/gcv}
 patch=$(readlink -f "$1"); shift
 props="$*"
 [ -z "$props" ] && props=$(python3 -c "import json;print(' '.join(c['property_id'] for c in json.load(open('/verif/MANIFEST.json'))['checks']))")
@@ -10,9 +11,11 @@ cd /repo || exit 2
 if [ -n "$(git status --porcelain)" ]; then echo "REFUSING: /repo has uncommitted changes (commit the contract files first)"; exit 2; fi
 if ! git apply --check "$patch" 2>/dev/null; then echo "PATCH DOES NOT APPLY: $patch"; exit 2; fi
 git apply "$patch"
+tmp=$(mktemp -d)
+echo $props | tr ' ' '\n' | xargs -P 6 -I{} sh -c "$GCV check --property {} > $tmp/{}.out 2>&1"
 for p in $props; do
-  out=$(/verif/bin/gcv check --property $p 2>&1)
-  echo "$out" | grep -E "^VIOLATION|^KNOWN|ERROR" | cut -c1-260 | sed "s/^/[$p] /"
-  echo "$out" | tail -1 | sed "s/^/[$p] /"
+  grep -E "^VIOLATION|ERROR" $tmp/$p.out | cut -c1-260 | sed "s/^/[$p] /"
+  tail -1 $tmp/$p.out | sed "s/^/[$p] /"
 done
-git -C /repo checkout -- . 
+rm -rf $tmp
+git -C /repo checkout -- .
